@@ -13,6 +13,9 @@ TABLE = {
     "C14": ("p_forward", 1400, 60000),
     "C05": ("p_c05", 1600, 50000),
     "C11": ("p_c11", 1200, 40000),
+    "C12": ("p_c12", 1500, 40000),
+    "C08": ("p_c08", 900, 30000),
+    "C09": ("p_c09", 320, 8000),
 }
 
 LEVEL = {}
@@ -28,6 +31,9 @@ RULE = {
 }
 RULE["C05"] = "144 systematic dependency-kind x timing pairs (bound = total sequential work bound), G-feasible class 1 (FS/SS-only, every non-automatic unfinished task has an eligible worker; shared workers, solo flags, fixed lists, finite absences) and class 2 (all four kinds, a dedicated worker per task), chains/diamonds/fans with own workers, random models with one task made unservable (skill removed / team link removed / fixed list naming nobody), random models with tiny max_time; non-trivial = >= 1 SS/FF/SF edge or a worker shared by >= 2 tasks"
 RULE["C11"] = "even cases: 40 direct calls each of sort_task/worker/facility/workplace_list on lists of 0-12 real objects with tied, missing, zero and negative keys and equal-but-not-identical ID strings, every rule x kind; odd cases: monitored simulations (random models, 45% facility-rich, contention) with a postcondition wrapper on every sort_* call made by simulate() and an inversion monitor at 'allocated' (keys snapshotted at 'updated'); non-trivial = a sort call with >= 2 distinct keys (direct) / an allocation pass where a free worker was eligible for >= 2 waiting tasks with different keys (sim)"
+RULE["C12"] = "G-fs: FS-only DAGs of any shape (multiple heads/tails, zero work, default progress) run under worker contention so that tasks wait and the critical path grows with t (2 of 3 cases: every update_PERT_data call made by initialize() and by every step of simulate() is checked by a postcondition wrapper against an independent topological forward/backward pass); 1 of 3 cases: standalone histories of (reduce some remaining work, advance t, update); non-trivial = contains an update at t>0 after the critical path length changed"
+RULE["C08"] = "random models x random histories of 1-5 operations drawn from simulate / simulate(max_time=k)+resume / simulate(initialize_log_info=False) / backward_simulate (both flags) / reverse_log_information / initialize; all logs of all objects are enumerated by reflection (attributes named *_record_list, *_id_record, cost_list); length and last-entry checks at every 'recorded' phase, alignment check after every operation; non-trivial = history with >= 2 different kinds of operation"
+RULE["C09"] = "per model (random incl. facility-rich, double weight on FF/SF edges, chains/diamonds): reference run, then K runs under permuted ID-keyed hash assignments (quick 6, thorough 24; all n! for small n) = different set iteration orders, one run with native address hashes after allocating garbage, a second simulate() on the same object, simulate() after a random history (incl. absence edits) on the same object, and a fresh model simulated after a history on ANOTHER project (default-argument simulate, insert_absence_time_list); every 20th case runs 8 models in a fresh interpreter with a different PYTHONHASHSEED; all comparisons exact on the complete dump; mutable defaults / module globals of pDESy.model are snapshotted and compared around every case; non-trivial = model with an FF/SF edge or two tasks finishing in the same step"
 # minimal number of non-trivial cases / monitor evaluations for a conclusive run: (counter, quick, thorough)
 FLOORS = {
     "C01": [("C01.transitions", 2000, 50000), ("C01.nonFS_active", 100, 3000)],
@@ -36,6 +42,9 @@ FLOORS = {
     "C04": [("C04.new_worker_allocations", 1000, 30000), ("C04.alloc_with_ineligible_free_candidate", 100, 3000)],
     "C05": [("C05.feasible_runs", 600, 20000), ("C05.unservable_runs", 100, 3000), ("C05.status_checks", 1000, 30000)],
     "C11": [("C11.sort_calls", 20000, 500000), ("C11.sort_calls_with_distinct_keys", 5000, 100000), ("C11.contention_situations", 50, 1500), ("C11.contention_pairs", 50, 1500)],
+    "C12": [("C12.updates", 10000, 300000), ("C12.updates_after_cpl_change", 500, 15000)],
+    "C08": [("C08.length_checks", 100000, 3000000), ("C08.entry_checks", 50000, 1500000), ("C08.ops", 1500, 50000)],
+    "C09": [("C09.comparisons", 2000, 100000), ("C09.distinct_set_orders", 800, 40000), ("C09.fresh_process_runs", 60, 1500)],
     "C06": [("C06.pairs_examined", 1000, 30000), ("C06.none_checks", 1000, 30000)],
     "C07": [("C07.resource_step_checks", 20000, 500000)],
     "C13": [("C13.moves", 300, 10000), ("C13.site_checks", 300, 10000)],
